@@ -929,24 +929,28 @@ def _parser_like_blocks(root: Any) -> bool:
     return True
 
 
-def _claimable_layout(obj: Any, comment: Any, side: str) -> bool:
-    """The comment sits exactly one newline away from the model's content edge
-    (zero-width tokens aside), which is where claim_*_comment looks."""
+def _adjacent_token(obj: Any, side: str) -> Any:
+    """The token exactly one newline away from the model's content edge (zero-width tokens aside),
+    which is where claim_*_comment looks; None if the edge is not followed by a single newline."""
     st = obj.token_store
     kids = [c for name, kind, c in W.children(obj) if c is not None and name not in ('_leading_comment', '_trailing_comment')]
     if not kids or st is None:
-        return False
+        return None
     succ = st.get_prev if side == 'leading' else st.get_next
     edge = kids[0].first_token if side == 'leading' else kids[-1].last_token
     t = succ(edge)
     while t is not None and not t.raw_text:
         t = succ(t)
     if not isinstance(t, models.Newline) or t.raw_text.count('\n') != 1:
-        return False
+        return None
     t = succ(t)
     while t is not None and not t.raw_text:
         t = succ(t)
-    return t is comment
+    return t
+
+
+def _claimable_layout(obj: Any, comment: Any, side: str) -> bool:
+    return comment is not None and _adjacent_token(obj, side) is comment
 
 
 def exec_claim(sess: Session, op: dict, step: int) -> Effect:
@@ -1021,7 +1025,19 @@ def exec_claim(sess: Session, op: dict, step: int) -> Effect:
             side = 'leading' if 'leading' in how else 'trailing'
             root = _root_node(sess, obj)
             if how.startswith('claim'):
+                cand = None
+                if getattr(obj, f'raw_{side}_comment') is None:
+                    cand = _adjacent_token(obj, side)
+                    own = getattr(obj, 'indent', '')
+                    if not isinstance(cand, BlockComment) or cand.claimed or bool(cand.indent) != bool(own if isinstance(own, str) else ''):
+                        cand = None
                 got = getattr(obj, f'claim_{side}_comment')(ignore_if_already_claimed=op.get('ignore', False))
+                if cand is not None:
+                    sess.stats['probe:claim_with_adjacent_free_comment'] += 1
+                    if got is not cand:
+                        eff.v('C14', 'claim_misses_adjacent', step,
+                              f'claim_{side}_comment on {type(obj).__name__} returned {got!r} although the unowned comment {cand.raw_text!r} '
+                              f'is directly {"above" if side == "leading" else "below"} it with the same indentation')
                 if got is not None:
                     sess.last_unclaimed = got      # (now claimed: the generator may have its new owner release it)
                 if got is not None and getattr(obj, f'raw_{side}_comment') is not got:
